@@ -11,13 +11,13 @@ pub fn kinds_for(prop: &str) -> Vec<&'static str> {
         "C01" => vec!["model", "garbage"],
         "C02" => vec!["model", "garbage", "iter"],
         "C03" => REGISTRY_KINDS.to_vec(),
-        "C08" => vec!["model", "garbage", "clone-count", "shared-storage", "handle", "meta"],
+        "C08" => vec!["model", "garbage", "clone-count", "shared-storage", "handle", "meta", "double-drop", "corrupt-drop", "dup", "dead-visible", "leak", "value-accounting"],
         "C09" => vec!["model", "clone-count", "lazy", "dup", "double-drop", "handle"],
         "C10" => vec!["capacity", "len>cap", "model", "garbage"],
         "C14" => vec!["iter", "model"],
         "C04" => vec!["type-admit", "type-reject", "type-meta", "double-drop", "corrupt-drop", "dup", "leak"],
         "C12" => vec!["view", "align", "garbage"],
-        "C05" => vec!["guard", "stale-write", "garbage", "corrupt-drop", "corrupt-clone", "len>cap", "lifecycle", "crash"],
+        "C05" => vec!["guard", "stale-write", "garbage", "corrupt-drop", "corrupt-clone", "len>cap", "lifecycle", "crash", "alloc-layout"],
         "C11" => vec!["model", "garbage", "capacity", "stack-alloc", "clone-count"],
         "C18" => vec!["alloc-shape", "alloc-layout", "alloc-invalid", "alloc-leak"],
         "C06" => vec!["double-drop", "corrupt-drop", "corrupt-clone", "clone-of-dead", "dup", "dead-visible", "garbage", "model", "guard", "stale-write", "len>cap", "crash", "meta", "view"],
